@@ -144,7 +144,9 @@ def cop(op, cur_shape):
     if k == "iter_pick":
         return f"(OIterPick {op['k']})"
     if k == "narrow_method":
-        return f"(ONarrowM {cz(op['dim'])} {op['start']} {op['len']})"
+        # the model's start is the one after `if start < 0: start += self.shape[dim]` (the implementation receives the negative one)
+        st = op["start"] + cur_shape[op["dim"] % len(cur_shape)] if op["start"] < 0 else op["start"]
+        return f"(ONarrowM {cz(op['dim'])} {st} {op['len']})"
     if k == "copy":
         return "(OCopy " + {"copy": "CCopy", "deepcopy": "CDeep", "pickle": "CPickle"}[op["fn"]] + ")"
     if k == "append":
@@ -535,7 +537,10 @@ def gen_step(rng, case, cur):
             d = rng.choice([0, 0, 1, -nd, 1 - nd])      # (spatial dims narrow every grid: not modelled, directed cases only)
             size = sh[d % nd]
             st = rng.randrange(0, size)
-            op.update(dim=d, start=st, len=rng.randrange(1, size - st + 1))
+            ln = rng.randrange(1, size - st + 1)
+            if rng.random() < 0.35:
+                st -= size                            # the same range counted from the end (also start + length == 0)
+            op.update(dim=d, start=st, len=ln)
         elif k == "copy":
             op["fn"] = rng.choice(["copy", "deepcopy", "pickle"])
         elif k == "append":
@@ -810,6 +815,21 @@ def directed_cases(rng):
             ]
             for s in ops:
                 case(kind, N, C if kind == "B" else len(sp), sp, [s])
+    # FlowFields(batch): one grid per item, those of the batch, in order; FlowFields(flows) keeps the axes of the vectors
+    for N, sp in ((3, [3, 4]), (2, [3, 3]), (4, [2, 2, 3]), (1, [3, 4])):
+        case("B", N, len(sp), sp, [S({"op": "as_flows"})])
+        for ax in ("WORLD", "CUBE", "GRID", "CUBE_CORNERS"):
+            case("F", N, len(sp), sp, [S({"op": "as_flows"})], axes=ax)
+    # narrow method with a negative start (torch.Tensor.narrow accepts it), along the batch and along a spatial dimension
+    for kind in ("B", "F"):
+        for N, C, sp in ((3, 2, [3, 4]), (4, 3, [2, 2, 3])):
+            for start, ln in ((-1, 1), (-N, N), (-2, 2), (-2, 1), (-N, 1)):
+                case(kind, N, C, sp, [S({"op": "narrow_method", "dim": 0, "start": start, "len": ln})])
+            case(kind, N, C, sp, [S({"op": "narrow_method", "dim": -1, "start": -2, "len": 2})])
+            case(kind, N, C, sp, [S({"op": "narrow_method", "dim": 2, "start": -2, "len": 1})])
+    for kind in ("I", "FI"):
+        case(kind, 1, 2, [3, 4], [S({"op": "narrow_method", "dim": -1, "start": -2, "len": 2})])
+        case(kind, 1, 2, [3, 4], [S({"op": "narrow_method", "dim": 1, "start": -1, "len": 1})])
     # copies of VIEWS: sub-batches, items, iteration items, split chunks, channel slices are views into the storage of the batch
     views = [S({"op": "getitem", "tuple": False, "ix": [{"t": "slice", "a": 1, "b": 3, "c": None}]}),
              S({"op": "getitem", "tuple": False, "ix": [{"t": "int", "v": 2}]}),
